@@ -288,9 +288,10 @@ class Tr:
                 if ca and cb:
                     return ('cols', node.op == '=', ca, cb)
                 return ('other',)
-            if node.op == 'is' and not self.isnull_as_cmp and (type(a).__name__ == 'NullConstant' or type(b).__name__ == 'NullConstant'):
-                # IS NULL is never used as a filter on its own (repository fix 11250a0): an opaque conjunct
-                return ('other',)
+            if node.op == 'is' and type(b).__name__ == 'NullConstant' and isinstance(a, Identifier):
+                # IS NULL: a conjunct like the others for the specification; the implementation never pushes it (fix 11250a0)
+                c = self.col(a)
+                return ('cmp', 'OIsNull', c, self.I(('const', 'null'))) if c else ('other',)
             if isinstance(a, Identifier) and isinstance(b, (Constant, Parameter)):
                 c = self.col(a)
                 if c:
